@@ -124,6 +124,9 @@ package main
 //@   at effect disk-write assert [C07] written-bytes-parse: Parses(string(arg1))
 //@   at effect disk-write assert [C12,C14,C16] written-bytes-are-the-pipeline-output: arg0 == filename && string(arg1) == ite(opts.SkipImportProcessing, fmtNode(f), impProc(filename, fmtNode(f)))
 //@   at effect disk-write assert [C18] generated-skipped: !(opts.SkipGenerated && ret("main.checkGeneratedCode", 0))
+//@   at call go/parser.ParseFile#0 set echoMark = echoes
+//@   at call io.Writer.Write set echoes = echoes + 1
+//@   at call (*log.Logger).Printf where arg1 is "%s: skipped" assert [C06] print-only-echoes-an-unmatched-file: !ok && (opts.Print ==> echoes == echoMark + 1) && (!opts.Print ==> echoes == echoMark)
 //@   at call io.Writer.Write assert [C06] echo-original: !ok ==> (opts.Print && arg0 == cmd.Stdout && string(arg1) == disk[filename])
 //@   at call io.Writer.Write assert [C12,C14] print-pipeline-output: ok ==> (opts.Print && !opts.Diff && arg0 == cmd.Stdout && string(arg1) == ite(opts.SkipImportProcessing, fmtNode(f), impProc(filename, fmtNode(f))))
 //@   at call io.Writer.Write assert [C07] printed-bytes-parse: ok ==> Parses(string(arg1))
